@@ -41,6 +41,8 @@ class Boundary(object):
         self.count = 0
         self.crash_at = None
         self.unwind = False          # True: death by interruption (stack unwinds once), False: killed outright
+        self.busy = False            # True: no death -- the statement at this boundary fails with "database is locked" (another process holds the file
+                                     # past the busy timeout); once
         self.locked = False          # True: no death -- the COMMIT at this boundary is refused ("database is locked": another process reads the file)
         self.log = []
 
@@ -48,6 +50,10 @@ class Boundary(object):
         if not self.armed:
             return
         if self.crash_at is not None and self.count == self.crash_at:
+            if self.busy:
+                self.log.append("BUSY at %s (database is locked)" % what)
+                self.crash_at = None
+                raise sqlite3.OperationalError("database is locked")
             if self.locked:
                 if what != "commit":
                     raise core.Infeasible()                    # only a commit is refused in this fault model
